@@ -187,6 +187,71 @@ def run_placement(case):
     return res
 
 
+def run_cluster(case):
+    """A clean pair next to an ambiguous cluster of three sulfurs (about
+    which nothing is claimed): the pair must be bridged symmetrically
+    wherever the cluster's chains stand in the file."""
+    from pdb2pqr import aa
+
+    res = {"evals": 1, "violations": [], "events": {}, "nontrivial": []}
+    pair, _i, dpair = build_pair({"d": 2.04, "pos": case["pos"],
+                                  "hg": case["hg"], "layout": "AB"})
+    clus, _i2, _d = build_pair({"d": 2.04, "pos": case["pos"], "hg": "none",
+                                "layout": "AB"})
+    for a in clus:
+        a["xyz"] = a["xyz"] + np.array([0.0, 0.0, 45.0])
+    s1, s2 = [a["xyz"] for a in clus if a["name"] == "SG"]
+    third = [build.BAtom(a) for a in clus if a["chain"] == "A"]
+    t3 = next(a["xyz"] for a in third if a["name"] == "SG")
+    shift = s2 + 2.2 * (s2 - s1) / np.linalg.norm(s2 - s1) - t3
+    for a in third:
+        a["xyz"] = a["xyz"] + shift
+    units = {"p1": [a for a in pair if a["chain"] == "A"],
+             "p2": [a for a in pair if a["chain"] == "B"],
+             "c1": [a for a in clus if a["chain"] == "A"],
+             "c2": [a for a in clus if a["chain"] == "B"], "c3": third}
+    order = {"cluster_first": ["c1", "c2", "c3", "p1", "p2"],
+             "pair_first": ["p1", "p2", "c1", "c2", "c3"],
+             "pair_around": ["p1", "c1", "c2", "c3", "p2"],
+             "cluster_around": ["c1", "p1", "p2", "c2", "c3"]}[case["order"]]
+    atoms = []
+    seqs = {}
+    for k, u in enumerate(order):
+        for a in units[u]:
+            a = build.BAtom(a)
+            a["chain"] = "ABCDE"[k]
+            a["res_seq"] = 1 + a["res_idx"] + 10 * k
+            atoms.append(a)
+        seqs[u] = (10 * k, 10 * k + 10)
+    ff = case["ff"]
+    opts = ["--nodebump", "--noopt", f"--ff={ff}"]
+    r = pipeline.run(build.pdb_text(atoms), opts)
+    if not r.ok:
+        res["events"][f"run-failed:{ff}"] = 1
+        return res
+    cys = [x for x in r.bm.residues if isinstance(x, aa.CYS)]
+    pp = [c for c in cys if seqs["p1"][0] < c.res_seq <= seqs["p1"][1]
+          or seqs["p2"][0] < c.res_seq <= seqs["p2"][1]]
+    tag = f"cluster/{case['order']}/hg={case['hg']}/{case['pos']}"
+    viol = []
+    if len(pp) != 2:
+        viol.append((f"C13/{tag}/cys-count", {"n": len(pp)}))
+    else:
+        a, b = pp
+        has = [x.has_atom("HG") for x in pp]
+        mutual = (a.ss_bonded_partner is b.get_atom("SG")
+                  and b.ss_bonded_partner is a.get_atom("SG"))
+        if any(has) or not mutual or not (a.ss_bonded and b.ss_bonded):
+            viol.append((f"C13/{tag}/clean-pair-not-bridged-symmetrically",
+                         {"has_hg": has, "mutual": mutual, "d": dpair,
+                          "flags": [a.ss_bonded, b.ss_bonded]}))
+    res["nontrivial"] = [f"{tag}/{ff}"]
+    res["events"][f"outcome:cluster:{case['order']}"] = 1
+    for sig, detail in viol:
+        res["violations"].append({"sig": sig, "detail": detail})
+    return res
+
+
 def run_double(case):
     """Two cysteine pairs in one structure (bridge detection must not stop
     after, or be disturbed by, another pair)."""
@@ -249,6 +314,8 @@ def run_case(case):
 
     if case.get("mode") == "double":
         return run_double(case)
+    if case.get("mode") == "cluster":
+        return run_cluster(case)
     if case.get("mode") == "placement":
         return run_placement(case)
     res = {"evals": 1, "violations": [], "events": {}, "nontrivial": []}
@@ -339,6 +406,13 @@ def enumerate_cases(tier, seed):
               else (1.9, 2.04, 2.2, 2.3, 2.4, 2.45, 2.49, 2.51, 2.6)):
         for rot in range(24):
             cases.append({"mode": "placement", "d": d, "rot": rot})
+    for ff in ffs[:2]:
+        for pos in corpus.POSITIONS:
+            for order in ("cluster_first", "pair_first", "pair_around",
+                          "cluster_around"):
+                for hg in ("none", "both"):
+                    cases.append({"mode": "cluster", "ff": ff, "pos": pos,
+                                  "order": order, "hg": hg})
     for ff in ffs[:2]:
         for pos in corpus.POSITIONS:
             for d1 in (2.04, 2.49, 2.51, 3.0):
